@@ -2,6 +2,7 @@ import SJ.Proofs.Tables
 import SJ.Proofs.Number
 import SJ.Proofs.BlockScan
 import SJ.Generated.Consts
+import SJ.Proofs.Stage2Table
 /-
 C01 — Parse accepts exactly the JSON grammar (object or array at the root).
 Theorems about the validators' tables; the statement about the whole parser is in progress (see DESIGN.md §7).
@@ -59,5 +60,44 @@ theorem C01_stage1_blocks (avx512 nd : Bool) (msg : Bytes) : stage1 nd msg = SJ.
 /-- Room for one more block and the tail block in every index buffer (otherwise the assembly's unchecked
     stores leave the slot). -/
 theorem C01_buffer_bound : Generated.cindexSizeWithSafetyBuffer + 64 + 64 ≤ Generated.cindexSize := by decide
+
+
+open SJ.Stage2Table SJ.Generated in
+/-- **Stage 2's control skeleton is the source's.** The table `stage2Sites` is regenerated on every run by executing
+    the body of `unifiedMachine` (labels, gotos, `switch buf[idx]`, byte comparisons, the blank-line loop) for every
+    `updateChar` call site and every byte value; the hand-written step function of the model is *equal* to the
+    interpretation of that table with the model's helpers — which bytes are accepted in which state, which validator
+    or tape write they trigger, and which state follows. A dropped check, an extra accepted byte or a wrong `goto`
+    changes the table and breaks this theorem. -/
+theorem C01_stage2_follows_source (m : M) (cfg : Cfg) (buf : Bytes) (idx peek : Nat) :
+    ∃ p, Plan.import (lookup stage2Sites (siteOf m.st) (buf.getD idx 0)) = some p ∧
+      m.step cfg buf idx peek = runPlan cfg buf idx peek p m := step_follows_source m cfg buf idx peek
+
+open SJ.Stage2Table SJ.Generated in
+/-- every state has its call site, the table has exactly those eleven sites -/
+theorem C01_stage2_sites : stage2Sites.length = 11 ∧ stage2SiteLines.length = 11 ∧ stOfSite 11 = none ∧
+    ∀ s, stOfSite (siteOf s) = some s := ⟨sites_count.1, sites_count.2.1, sites_count.2.2, stOfSite_siteOf⟩
+
+open SJ.Stage2Table SJ.Generated in
+/-- the return-state dispatch of `scopeEnd`, the START prologue and the `succeed:` block are the expected ones -/
+theorem C01_stage2_blocks :
+    (stage2Prologue = [Act.push .start, Act.write 114].map Act.name) ∧
+    stage2ScopeEnd = ["pop", "write@:buf[idx]", "annotate:loc", "dispatch"] ∧
+    stage2ReopenRoot = ["pop", "annotate:loc+addOneForRoot", "write@:r", "push:retAddressStartConst", "write:r"] ∧
+    stage2Succeed = ["pop", "requireEmpty", "annotate:loc+addOneForRoot", "write@:r", "isvalid", "return:true"] :=
+  ⟨prologue.1, block_shapes.1, block_shapes.2.1, block_shapes.2.2⟩
+
+open SJ.Stage2Table in
+/-- a failing table entry fails the step; a successful step lands in the state the table names (for `scopeEnd`,
+    the state decoded from the popped return code through the regenerated dispatch) -/
+theorem C01_stage2_step_plan (m : M) (cfg : Cfg) (buf : Bytes) (idx peek : Nat) :
+    (planOf m.st (buf.getD idx 0) = none → m.step cfg buf idx peek = none) ∧
+    (∀ m', m.step cfg buf idx peek = some m' →
+      ∃ acts succ, planOf m.st (buf.getD idx 0) = some (acts, succ) ∧
+        match succ with
+        | .to s => m'.st = s
+        | .ret => acts = [.scopeEnd] ∧ ∃ offset rest, m.stack = offset :: rest ∧ m'.stack = rest ∧
+            some m'.st = retState (offset &&& UInt64.ofNat Generated.stage2RetMask).toNat) :=
+  step_plan m cfg buf idx peek
 
 end SJ.Properties.C01
